@@ -1,0 +1,13 @@
+//go:build verif
+
+package base
+
+// Machine-checked contracts (comment-only; read by /verif/engine).
+
+//@ props C20 C02 C11 C12
+
+//@ func NewHTTPError
+//@   ensures[status] result != nil && result.Status == status
+
+//@ func HTTPErrorf
+//@   ensures[status] result != nil && result.Status == status
